@@ -67,7 +67,8 @@ def analyse(ctx, cfg, fnpath, assume=(), args=None, **kw):
     if fn is None:
         raise X.Unanalysable('anchor function %s not found' % fnpath)
     hyps = kw.pop('_hyps', None)
-    summarise = kw.pop('summarise', True)
+    # rules that bring their own loop invariants reason about the loop variables themselves: no closed forms for them
+    summarise = kw.pop('summarise', 'loop_candidates' not in kw)
     kw.pop('_no_len_limit', None)
     exact = kw.pop('_exact_casts', None)
     ip = X.Interp(cr, **kw)
